@@ -26,7 +26,7 @@ import (
 	"verif/internal/model"
 )
 
-const rule = "cases: (published, offset) over boundaries {0,1,2^31-1,2^31,2^32-1} x {0,1,65535} (all 15 pairs every run) and uniform u32 x u16, carried by LeaseSet2, MetaLeaseSet and EncryptedLeaseSet encodings, half of them with an offline block whose transient key expires before, at or after the structure does; Lease end dates (ms) below 2^63 incl. 9223372036854/5 (the UnixNano limit); Lease2 seconds over u32 and constructor times outside [0,2^32-1] (negative, 2^32, year 2262+, sub-second fractions, +-2^k +- delta up to the int64 limits, and second counts whose product with 10^3, 10^6 or 10^9 wraps modulo 2^64 into the 32-bit range); offline expiry u32; LeaseSets of 1..16 leases with arbitrary, repeated and boundary dates in random order; expiry one day before / after the start of the run for seven structure kinds, and any absolute 32-bit expiry at least a day away from now (uniform, and the landmarks 2^31, 2^32-1, now +- 2^31). Times handed to constructors are expressed in UTC and three other locations. Oracle: math/big - ExpirationTime().Unix() = published+offset (up to 2^32+65534, no wrap), exact second<->millisecond conversions (Lease / Date accessors, NewLease, DateFromTime, NewDateFromMillis, NewDateFromUnix, the published date of NewRouterInfo, over the whole range below 2^63 ms), NewLease2 rejects out-of-range instead of wrapping, Newest/OldestExpiration are members of the leases and bound all others, IsExpired true at now-86400 s and false at now+86400 s. Non-trivial: published+offset crosses 2^31 or 2^32, a date beyond 2^31 s, or a lease set with >= 2 distinct dates; distinct by field values."
+const rule = "cases: (published, offset) over boundaries {0,1,2^31-1,2^31,2^32-1} x {0,1,65535} (all 15 pairs every run) and uniform u32 x u16, carried by LeaseSet2, MetaLeaseSet and EncryptedLeaseSet encodings, half of them with an offline block whose transient key expires before, at or after the structure does; Lease end dates (ms) below 2^63 incl. 9223372036854/5 (the UnixNano limit); Lease2 seconds over u32 and constructor times outside [0,2^32-1] (negative, 2^32, year 2262+, sub-second fractions, +-2^k +- delta up to the int64 limits, and second counts whose product with 10^3, 10^6 or 10^9 wraps modulo 2^64 into the 32-bit range, Go's zero time.Time 0001-01-01 and its neighbours, year 0 and year 9999/10000); the same second counts handed to NewDateFromUnix and, as milliseconds, to NewDateFromMillis over the whole int64 range (half of the uniform draws beyond MaxInt64/1000, where s*1000 wraps to either sign); offline expiry u32; LeaseSets of 1..16 leases with arbitrary, repeated and boundary dates in random order; expiry one day before / after the start of the run for seven structure kinds, and any absolute 32-bit expiry at least a day away from now (uniform, and the landmarks 2^31, 2^32-1, now +- 2^31). Times handed to constructors are expressed in UTC and three other locations. Oracle: math/big - ExpirationTime().Unix() = published+offset (up to 2^32+65534, no wrap), exact second<->millisecond conversions (Lease / Date accessors, NewLease, DateFromTime, NewDateFromMillis, NewDateFromUnix, the published date of NewRouterInfo, over the whole range below 2^63 ms), a date conversion that returns without an error returns the exact count and otherwise (negative, or >= 2^63 ms) an error, NewLease2 rejects out-of-range instead of wrapping, Newest/OldestExpiration are members of the leases and bound all others, IsExpired true at now-86400 s and false at now+86400 s. Non-trivial: published+offset crosses 2^31 or 2^32, a date beyond 2^31 s, or a lease set with >= 2 distinct dates; distinct by field values."
 
 var now time.Time
 
@@ -213,7 +213,39 @@ func checkLease(c Case, r *ev.Rec) error {
 	return nil
 }
 
+// checkDateConv: the explicit conversions of the date type over the whole int64 range of
+// their argument. Whatever they return without an error is the mathematically exact
+// millisecond count (s*1000, or ms itself); a count that is negative or does not fit below
+// 2^63 ms has no exact value to return, so an error is the only admissible answer.
+func checkDateConv(v int64, r *ev.Rec) error {
+	exact := new(big.Int).Mul(big.NewInt(v), big.NewInt(1000))
+	representable := exact.Sign() >= 0 && exact.BitLen() <= 63
+	ds, err := data.NewDateFromUnix(v)
+	if err == nil {
+		if ds == nil || !representable || new(big.Int).SetBytes(ds.Bytes()).Cmp(exact) != 0 {
+			return fmt.Errorf("NewDateFromUnix(%d) = %v with a nil error: the exact value is %s ms (representable below 2^63: %v)", v, ds, exact, representable)
+		}
+	} else if representable {
+		return fmt.Errorf("NewDateFromUnix(%d) refused a representable second count (%s ms): %v", v, exact, err)
+	}
+	dm, err := data.NewDateFromMillis(v)
+	if err == nil {
+		if dm == nil || v < 0 || new(big.Int).SetBytes(dm.Bytes()).Cmp(big.NewInt(v)) != 0 {
+			return fmt.Errorf("NewDateFromMillis(%d) = %v with a nil error: not the exact millisecond count", v, dm)
+		}
+	} else if v >= 0 {
+		return fmt.Errorf("NewDateFromMillis(%d) refused a representable millisecond count: %v", v, err)
+	}
+	if !representable {
+		r.Class("dateconv:out-of-range")
+	}
+	return nil
+}
+
 func checkLease2(c Case, r *ev.Rec) error {
+	if err := checkDateConv(c.Secs, r); err != nil {
+		return err
+	}
 	t := time.Unix(c.Secs, c.Nanos).In(zoneFor(uint64(c.Secs)))
 	inRange := t.Unix() >= 0 && t.Unix() <= math.MaxUint32
 	var gw data.Hash
@@ -400,7 +432,12 @@ var bOff = []uint16{0, 1, 65535}
 var bMs = []uint64{0, 1, 1<<31*1000 - 1, 1 << 31 * 1000, (1<<32 - 1) * 1000, 1 << 32 * 1000, 9223372036854, 9223372036855, 9223372036856, 1<<63 - 1, 1<<63 - 1000}
 var bSecs = []int64{-1, 0, 1, 1<<31 - 1, 1 << 31, 1<<32 - 1, 1 << 32, 1<<32 + 1, 9223372036, 9223372037, 1 << 40, -1 << 40, math.MaxInt64 / 2,
 	math.MaxInt64, math.MinInt64, math.MinInt64 + 1, 1 << 53, 1 << 61, 1 << 62, -1 << 61, -1 << 62, 1<<61 + 1700000000, 1<<62 + 5, -1<<62 + 4000000000,
-	9223372036854775, 9223372036854776, 9223372036854775807 / 1000000, 9223372036854775807/1000000 + 1, 18446744073709552, 18446744073709553}
+	9223372036854775, 9223372036854776, 9223372036854775807 / 1000000, 9223372036854775807/1000000 + 1, 18446744073709552, 18446744073709553,
+	goZeroSecs, goZeroSecs - 1, goZeroSecs + 1, goZeroSecs + 86400, -62167219200, 253402300799, 253402300800}
+
+// goZeroSecs is the Unix second of Go's zero time.Time (0001-01-01T00:00:00Z): the value a
+// caller passes when a time field was never set.
+const goZeroSecs = -62135596800
 
 // wrapSecs returns a second count s outside [0, 2^32) for which s*mult, computed in
 // 64-bit arithmetic, wraps to j*mult - (a value below mult): a range check or a stored
@@ -463,6 +500,9 @@ func genCase(t *rapid.T) Case {
 			c.Secs = wrapSecs(mult, rapid.Int64Range(1, mult/2-1).Draw(t, "k"), rapid.Int64Range(1, 1<<32).Draw(t, "j"), rapid.Bool().Draw(t, "neg"))
 		case 4:
 			c.Secs = rapid.Int64().Draw(t, "secs")
+			if rapid.Bool().Draw(t, "beyond") { // beyond MaxInt64/1000: s*1000 wraps, to either sign
+				c.Secs = rapid.Int64Range(math.MaxInt64/1000+1, math.MaxInt64).Draw(t, "secs2")
+			}
 		default:
 			c.Secs = rapid.Int64Range(-1<<33, 1<<34).Draw(t, "secs")
 		}
